@@ -139,8 +139,10 @@ func (st *SymbolTable) SetParams(params ...string) error {
 	}
 
 	st.numParams = len(params)
-	for _, param := range params {
+	for i, param := range params {
 		if _, ok := st.store[param]; ok {
+			// only the parameters before this one have been defined
+			st.numParams = i
 			return fmt.Errorf("%q redeclared in this block", param)
 		}
 		symbol := &Symbol{
